@@ -267,11 +267,22 @@ class Interp:
             else:
                 variables[nm] = v
         pvals = {}
+        passed_on = []      # free parameters of the *caller* that arrive through bound values (nested template includes)
         for p in used_params:
             if self.params is not None:
                 if p not in self.params:
                     raise Reject("missing-parameter", p)
-                pvals[p] = self.params[p]
+                v = self.params[p]
+                if isinstance(v, Sym):
+                    pvals[p] = v.value
+                    for q in v.params:
+                        if q not in passed_on:
+                            passed_on.append(q)
+                    for r in v.regs:
+                        if r not in used_regs:
+                            used_regs.append(r)
+                else:
+                    pvals[p] = v
             else:
                 pvals[p] = sf.param(p)
         ctx = X.Ctx(self.alg, self.leaf, variables, arrays, self.symbolic, params=pvals)
@@ -292,7 +303,7 @@ class Interp:
             if isinstance(self.vars.get(nm), RefArray):
                 return self.vars[nm]
         val = X.evaluate(ctx, toks2)
-        free_params = used_params if self.params is None else []
+        free_params = used_params if self.params is None else passed_on
         for p in free_params:
             self.prog.parameters.add(p)
         if free_params or used_regs:
